@@ -39,6 +39,7 @@ def formula(t, t1, t2):
 
 
 SETTINGS = [
+    {'name': 'same-durations-other-T', 'durs': {'M': 500e-9, 'CZ': 60e-9, 'H': 20e-9, 'X': 21e-9}, 'default': (2, 3, 2), 'individual': {'D1': (3, 1, 1)}, 'index_map': {0: 'D1'}},
     {'name': 'default-like', 'durs': {'M': 500e-9, 'CZ': 60e-9, 'H': 20e-9, 'X': 21e-9}, 'default': (1, 1, 1), 'individual': {}, 'index_map': {}},
     {'name': 'per-qubit', 'durs': {'M': 400e-9, 'CZ': 700e-9, 'H': 30e-9, 'X': 45e-9}, 'default': (1, 2, 1),
      'individual': {'D1': (2, 3, 2), 'Z1': (3, 1, 3), 'D2': (3, 3, 1)}, 'index_map': {0: 'D1', 1: 'Z1', 2: 'D2'}},
